@@ -1,0 +1,52 @@
+//go:build verif
+
+package threadgroup
+
+// Machine-checked contracts for package threadgroup, read by /verif/gocv.
+// Comments only; compiled solely under the build tag "verif".
+//
+// C18 (shutdown): the group's `closed` channel is never sent on, only closed
+// (closeonly); closed(c) is the checker's predicate "c has been closed".
+//
+//@ extern (*sync.WaitGroup).Add
+//@   assigns nothing
+//@ extern (*sync.WaitGroup).Done
+//@   assigns nothing
+//@ extern (*sync.WaitGroup).Wait
+//@   assigns nothing
+//@ extern context.WithCancel
+//@   assigns nothing
+//
+// Add: once the group is stopped no thread is admitted (ErrClosed, no WaitGroup.Add); before
+// that a thread is admitted and counted. Decided under the mutex.
+//@ data ErrClosed
+// (package initialisation: errors.New never returns nil)
+//@ axiom ErrClosed != nil
+//@ func (*ThreadGroup).Add props C18
+//@   nopanic
+//@   assigns nothing
+//@   requires tg != nil && closeonly(tg.closed)
+//@   ensures [rejected-after-stop] old(closed(tg.closed)) ==> result1 == ErrClosed
+//@   ensures [not-counted] old(closed(tg.closed)) ==> !called("WaitGroup).Add")
+//@   ensures [admitted] !old(closed(tg.closed)) ==> result1 == nil
+//@   ensures [counted-under-lock] !old(closed(tg.closed)) ==> called("WaitGroup).Add") && calledBefore("Lock", "WaitGroup).Add") && calledBefore("WaitGroup).Add", "Unlock")
+//
+// Stop: closes the channel exactly once (never twice: that would panic), under the mutex, and
+// waits for the admitted threads outside the mutex (so that threads finishing can still call Add
+// and be rejected instead of deadlocking).
+//@ func (*ThreadGroup).Stop props C18
+//@   nopanic
+//@   requires tg != nil && closeonly(tg.closed)
+//@   ensures [closed] closed(tg.closed)
+//@   ensures [once] old(closed(tg.closed)) ==> !called("chan.close")
+//@   ensures [waits-unlocked] called("Wait") && calledBefore("Unlock", "Wait")
+//
+// AddContext: a rejected Add is reported and nothing else happens.
+//@ func (*ThreadGroup).WithContext
+//@   assigns nothing
+//@ func (*ThreadGroup).AddContext props C18
+//@   requires tg != nil && closeonly(tg.closed)
+//@   ensures [rejected-after-stop] old(closed(tg.closed)) ==> result2 == ErrClosed
+//@   ensures [rejected-nil] old(closed(tg.closed)) ==> result0 == nil
+//@   ensures [rejected-no-context] old(closed(tg.closed)) ==> !called("WithContext")
+//@   ensures [admitted] !old(closed(tg.closed)) ==> result2 == nil && called("WithContext")
